@@ -78,6 +78,12 @@ static const scpi_command_t cmds[] = {
     {"C0", h_generic, U_C0}, {"CE", h_generic, U_CE}, {"Q0?", h_generic, U_Q0}, {"Q1?", h_generic, U_Q1}, {"Q2?", h_generic, U_Q2}, {"Q4?", h_generic, U_Q4},
     {"Q0E?", h_generic, U_Q0E}, {"Q1E?", h_generic, U_Q1E}, {"Q2X?", h_generic, U_Q2X}, {"Q1P?", h_generic, U_Q1P}, {"Q0P?", h_generic, U_Q0P}, {"Q0X?", h_generic, U_Q0X},
     {"Q4E?", h_generic, U_Q4E}, {"QPART?", h_generic, U_QPART},
+    /* the handlers the library ships */
+    {"*CLS", SCPI_CoreCls, 0}, {"*ESE", SCPI_CoreEse, 0}, {"*ESE?", SCPI_CoreEseQ, 0}, {"*ESR?", SCPI_CoreEsrQ, 0}, {"*IDN?", SCPI_CoreIdnQ, 0}, {"*OPC", SCPI_CoreOpc, 0}, {"*OPC?", SCPI_CoreOpcQ, 0},
+    {"*RST", SCPI_CoreRst, 0}, {"*SRE", SCPI_CoreSre, 0}, {"*SRE?", SCPI_CoreSreQ, 0}, {"*STB?", SCPI_CoreStbQ, 0}, {"*TST?", SCPI_CoreTstQ, 0}, {"*WAI", SCPI_CoreWai, 0},
+    {"SYSTem:ERRor[:NEXT]?", SCPI_SystemErrorNextQ, 0}, {"SYSTem:ERRor:COUNt?", SCPI_SystemErrorCountQ, 0}, {"SYSTem:VERSion?", SCPI_SystemVersionQ, 0},
+    {"STATus:QUEStionable[:EVENt]?", SCPI_StatusQuestionableEventQ, 0}, {"STATus:QUEStionable:ENABle", SCPI_StatusQuestionableEnable, 0}, {"STATus:QUEStionable:ENABle?", SCPI_StatusQuestionableEnableQ, 0},
+    {"STATus:OPERation:CONDition?", SCPI_StatusOperationConditionQ, 0}, {"STATus:PRESet", SCPI_StatusPreset, 0}, {"STUB", SCPI_Stub, 0}, {"STUB?", SCPI_StubQ, 0},
     SCPI_CMD_LIST_END
 };
 
@@ -190,6 +196,48 @@ int main(int argc, char ** argv) {
                 mc_viol("c06/item-separator/many-items", "message [%s]: output differs from the model at offset %d: got [%s], expected [%s]", mc_e(msg, (size_t) ml), (int) k, mc_e(OUT + (k > 6 ? k - 6 : 0), 14), mc_e(exp + (k > 6 ? k - 6 : 0), 14));
             } else { n_responding++; }
             free(exp);
+        }
+    }
+    {   /* the query and command handlers the library ships: every message of <= 3 units over 22 of them (headers written from the root
+         * so that no path is inherited) on a context holding two errors and some event bits.  Differential oracle: the same units
+         * sent one per message to an identically prepared context give responses r1..rk; the message must write exactly the non-empty
+         * ri without their terminators, joined by ';', then one terminator (nothing at all if every ri is empty). */
+        static const char * lu[] = {"*IDN?", "*TST?", "*OPC?", "*ESE?", "*ESR?", "*SRE?", "*STB?", ":SYST:ERR?", ":SYST:ERR:COUN?", ":SYST:VERS?", ":STAT:QUES?", ":STAT:QUES:ENAB?",
+                                    ":STAT:OPER:COND?", "*RST", "*CLS", "*WAI", "*OPC", "*ESE 36", ":STAT:QUES:ENAB 3", ":STAT:PRES", ":STUB", ":STUB?", ":Q1E?"};      /* no undefined header here: the text of its -113 is the whole unit, unit separator included, so SYST:ERR? would differ */
+        const int NLU = (int) (sizeof lu / sizeof lu[0]);
+        const size_t tl = strlen(SCPI_LINE_ENDING);
+        int KL = mc_thorough ? 4 : 3, idx[4];
+        for (k = 1; k <= KL; k++) {
+            for (i = 0; i < k; i++) idx[i] = 0;
+            for (;;) {
+                if (MC_CASE()) {
+                    char msg[160], exp[1200]; size_t ml = 0, el = 0; int any = 0;
+                    mc_case_tag = "library-handlers";
+                    for (i = 0; i < k; i++) ml += (size_t) sprintf(msg + ml, "%s%s", i ? ";" : "", lu[idx[i]]);
+                    msg[ml++] = '\n';
+                    mc_case_s[0] = (const unsigned char *) msg; mc_case_n[0] = ml;
+                    /* reference: one unit per message */
+                    tc_reinit(&T, cmds); rot_impl = 0;
+                    SCPI_ErrorPush(&T.ctx, -222); SCPI_ErrorPush(&T.ctx, -113); SCPI_RegSet(&T.ctx, SCPI_REG_QUES, 5); SCPI_RegSet(&T.ctx, SCPI_REG_OPERC, 0x11);
+                    for (i = 0; i < k; i++) {
+                        char one[80]; int ol = sprintf(one, "%s\n", lu[idx[i]]);
+                        tr_reset();
+                        SCPI_Input(&T.ctx, one, ol);
+                        if (OUTN >= tl && el + OUTN + 2 < sizeof exp) { if (any) exp[el++] = ';'; memcpy(exp + el, OUT, OUTN - tl); el += OUTN - tl; any = 1; }
+                    }
+                    if (any) { memcpy(exp + el, SCPI_LINE_ENDING, tl); el += tl; }
+                    tc_reinit(&T, cmds); rot_impl = 0;
+                    SCPI_ErrorPush(&T.ctx, -222); SCPI_ErrorPush(&T.ctx, -113); SCPI_RegSet(&T.ctx, SCPI_REG_QUES, 5); SCPI_RegSet(&T.ctx, SCPI_REG_OPERC, 0x11);
+                    tr_reset();
+                    SCPI_Input(&T.ctx, msg, (int) ml);
+                    n_msgs++;
+                    if (OUTN != el || memcmp(OUT, exp, el)) mc_viol("c06/library-handlers", "message [%s] wrote [%s]; its units sent one per message wrote, joined: [%s]", mc_e(msg, ml), mc_e(OUT, OUTN < 300 ? OUTN : 300), mc_e(exp, el < 300 ? el : 300));
+                    else if (any && tc_flushes != 1) mc_viol("c06/library-handlers/flush", "message [%s]: %d flushes", mc_e(msg, ml), tc_flushes);
+                    else if (any) n_responding++; else n_silent++;
+                }
+                for (i = k - 1; i >= 0; i--) { if (++idx[i] < NLU) break; idx[i] = 0; }
+                if (i < 0) break;
+            }
         }
     }
     if (mc_shard == 0) {
